@@ -237,6 +237,9 @@ def generate(repo, pid='C01', extra_imports=(), extra_opens=(), extra=None):
             'alpha / np.sqrt(alpha)', 'np.sqrt(alpha)')
         Hs = u(find_assign(fn, 'H'))
         rets = [u(r) for r in find_returns(fn)]
+        if not ok_norm or Hs != 'fft.fft(h)' or rets != ['(H, b, a)']:
+            # textual facts: an unrecognised shape is "untranslatable" (hand model + widened correspondence), not "false"
+            raise Untranslatable(f'norm / return statements not recognised: {[u(n) for n in nb]}, H = {Hs}, return {rets}')
         return (f'def cztShiftSignOut : Int := {s_out}\ndef cztShiftSignIn : Int := {s_in}\n'
                 f'def cztChirpSignA : Int := {sa}\ndef cztChirpSignB : Int := {sb}\ndef cztChirpSignH : Int := {sh}\n'
                 f'def cztNormIsSqrtAlphaOnB : Bool := {"true" if ok_norm else "false"}\n'
@@ -312,7 +315,9 @@ def generate(repo, pid='C01', extra_imports=(), extra_opens=(), extra=None):
             raise Untranslatable('could not identify one row and one column basis')
         # FFT size tuple of fft2 in czt2: (K, L) must be (row length, column length)
         f2 = find_calls(fn, 'fft.fft2')
-        size_ok = len(f2) == 1 and len(f2[0].args) == 2 and u(f2[0].args[1]) == f'({k2_inv(k2, out[0]["K"], key)}, {k2_inv(k2, out[1]["K"], key)})'
+        if not (len(f2) == 1 and len(f2[0].args) == 2 and isinstance(f2[0].args[1], ast.Tuple) and len(f2[0].args[1].elts) == 2):
+            raise Untranslatable('fft2 call of czt2 not recognised')
+        size_ok = u(f2[0].args[1]) == f'({k2_inv(k2, out[0]["K"], key)}, {k2_inv(k2, out[1]["K"], key)})'
         txt = []
         for ax, nm in ((0, 'Row'), (1, 'Col')):
             txt.append(f'def czt{nm}Wiring : AxisWiring := {out[ax]["w"]}')
@@ -381,6 +386,8 @@ def generate(repo, pid='C01', extra_imports=(), extra_opens=(), extra=None):
         body = [u(s) for s in ic.body if not (isinstance(s, ast.Expr) and isinstance(s.value, ast.Constant))]
         ok_i = body == ['if np.iscomplexobj(ary):\n    ary = np.conj(ary)',
                         'xformed = np.conj(self.czt2(ary, Q, samples_out, shift))', 'return xformed']
+        if not ok_i:
+            raise Untranslatable(f'iczt2 body not recognised: {body}')
         return (f'def cztPipelineIsBluestein : Bool := {"true" if ok else "false"}\n'
                 f'def icztIsConjCztConj : Bool := {"true" if ok_i else "false"}')
     g.item('czt.pipeline', 'prysm/fttools.py:ChirpZTransformExecutor.czt2/iczt2',
@@ -627,6 +634,8 @@ def fft_route_items(g, ft, pr):
             pad_ok = len(ifs) == 1 and u(ifs[0].test) == 'Q != 1' and \
                 [u(s) for s in ifs[0].body] == ['padded_wavefront = pad2d(wavefunction, Q)'] and \
                 [u(s) for s in ifs[0].orelse] == ['padded_wavefront = wavefunction']
+            if not pad_ok:
+                raise Untranslatable(f'{name}: padding statements not recognised')
             if not (isinstance(r, ast.Call) and u(r.func) in ('fft.fftshift', 'fft.ifftshift')):
                 raise Untranslatable(f'{name} does not return a shifted transform: {u(r)}')
             outer = u(r.func).split('.')[-1]
